@@ -46,7 +46,7 @@ def lex_many(texts: Iterable[str]) -> list[LexResult]:
         toks, err = [], None
         for part in line.split(';'):
             if part.startswith('ERR,'):
-                err = bytes.fromhex(part[4:]).decode()
+                err = bytes.fromhex(part.split(',')[1]).decode()
                 break
             # Kind may contain commas inside Keyword("..")? no: Keyword(Keyword("x")) has none
             f = part.rsplit(',', 5)
